@@ -1,10 +1,19 @@
 import Gopki.Model.Db
+import Gopki.Lemmas.B64Round
 /-! # C06 — extension list, criticality and raw values reach the certificate unchanged -/
 namespace C06
 open Gen Config
 
 /-- base64 of any byte string decodes to that byte string (strict decoder; any length) -/
 theorem C06_b64_any_length (bs : List UInt8) : B64.dec (B64.enc bs) = some bs := B64.dec_enc bs
+
+/-- the decoder gopki actually uses (the model of Go's `base64.StdEncoding.DecodeString`: CR / LF skipped, non-zero
+    trailing bits tolerated) reads the base64 of any byte string back, of every length — also when the text is
+    wrapped: CR and LF may stand anywhere in it -/
+theorem C06_go_decoder_any_length (bs : List UInt8) : V1.goB64Decode (B64.enc bs) = some bs := V1.goB64Decode_enc bs
+
+theorem C06_go_decoder_wrapped (bs l : List UInt8) (h : l.filter (fun b => b ≠ 13 ∧ b ≠ 10) = B64.enc bs) :
+    V1.goB64Decode l = some bs := V1.goB64Decode_wrapped bs l h
 
 /-- a raw (`ConstantBuilder`) extension compiles to exactly itself: OID, critical flag and value bytes -/
 theorem C06_constant_compiles_to_itself (e : Cert.Ext) (ctx : Context) (iss : IssuerContext) :
